@@ -126,6 +126,8 @@ class Scenario(worlds.World):
                 ok = {"accept": bool(self.net.pending), "refuse": bool(self.net.pending), "accept_failing": bool(self.net.pending),
                       "eof": bool(self.net.live()), "reset": bool(self.net.live()), "failw": bool(self.net.live()),
                       "stall": bool(self.net.live()), "resume": bool(self.net.stalled()), "frame": bool(self.net.live()),
+                      "partial": bool(self.net.live()), "rest-reset": bool(self.net.live()), "rest": bool(self.net.live()),
+                      "app-reset": True,
                       "tick": not ready and self.loop.next_deadline() is not None}.get(nxt[0], True)
                 if ok:
                     acts.append(nxt)
@@ -196,6 +198,18 @@ class Scenario(worlds.World):
                 self.net.on_open = None
             self.net.on_open = arm
             self.net.resolve(True)
+        elif op == "partial":
+            # the first part of an intact frame (header and two bytes of payload): the read task parks inside the frame
+            k = (8 if self.gen == 4 else 20) + 2
+            self.net.live()[-1].peer_send(self.probe[:k])
+        elif op in ("rest", "rest-reset"):
+            k = (8 if self.gen == 4 else 20) + 2
+            self.net.live()[-1].peer_send(self.probe[k:])
+            if op == "rest-reset":
+                # ... and in the same loop iteration somebody else (the heartbeat manager does this) resets the connection
+                self.spawn(self.sock.reset_connection())
+        elif op == "app-reset":
+            self.spawn(self.sock.reset_connection())
         elif op == "stall":
             self.net.live()[-1].pause()
         elif op == "resume":
@@ -351,6 +365,9 @@ SCRIPTS = {
     "stalled-stream-reset": [["accept"], ["stall"], ["send"], ["send"], ["reset"], ["accept"]],
     "lingering-close-meets-stale-retry/quiet": [["send"], ["accept_failing"], ["accept"], ["stall"], ["send"], ["eof"], ["tick"], ["accept"], ["resume"]],
     "lingering-close-meets-stale-retry": [["send"], ["accept_failing"], ["accept"], ["stall"], ["send"], ["eof"], ["tick"], ["accept"], ["resume"]],
+    # a reset requested by another task while the read task is parked in the middle of a frame
+    "reset-meets-half-read-frame": [["accept"], ["partial"], ["rest-reset"], ["accept"]],
+    "reset-while-parked-in-frame": [["accept"], ["partial"], ["app-reset"], ["accept"], ["frame"]],
 }
 QUICK = [(5, 0), (4, 1), (3, 2)]
 THOROUGH = [(8, 0), (6, 1), (5, 2)]
